@@ -7,8 +7,9 @@
      src/frontend/recursive_parser/recursive_parser.cpp : parseTernary (with its save/restore
         backtracking for the error-propagation form e?)
      src/frontend/recursive_parser/parsers/primary_expression_parser.cpp : parsePrimary
-        (number, identifier with the generic-call look-ahead ident < ... > ( , call, and the
-         cast-versus-parenthesis look-ahead through parseType)
+        (number, identifier with the generic-call look-ahead ident < ... > ( , call,
+         parenthesised expression; the cast look-ahead of "( identifier" needs an identifier that
+         names a type since fix 34a2124 and is outside the modelled fragment)
 
    The parser part has the shape of coq/C02/Model.v (which is tied to the code at AST level by
    the C02 check); this copy is owned by C10, fixes the pinned level table and is fed by the
@@ -40,7 +41,6 @@ Inductive expr :=
 | Call (f : str) (args : list expr)
 | Tern (c a b : expr) | Asg (o : option binop) (l r : expr)
 | EProp (a : expr)
-| Cast (ty : list tok) (a : expr)
 | Generic (n : nat) (call : expr).
 
 Inductive res (A : Type) := Ok (a : A) | Err | Fuel.
@@ -51,39 +51,54 @@ Definition bind {A B} (x : res A) (k : A -> res B) : res B :=
   match x with Ok a => k a | Err => Err | Fuel => Fuel end.
 
 (* index of the ladder function whose while-loop accepts the operator (1 = parseLogicalOr ...
-   9 = parseMultiplicative): the token sets of the pinned tree *)
+   6 = parseComparison (== !=), 7 = parseRelational (< <= > >=, since fix 4d0a4b7) ...
+   10 = parseMultiplicative): the token sets of the current tree *)
 Definition lvl (o : binop) : nat :=
   match o with
   | Or => 1 | And => 2 | BOr => 3 | BXor => 4 | BAnd => 5
-  | EqO | NeO | LtO | LeO | GtO | GeO => 6
-  | Shl | Shr => 7 | Add | Sub => 8 | Mul | Div | Mod => 9
+  | EqO | NeO => 6 | LtO | LeO | GtO | GeO => 7
+  | Shl | Shr => 8 | Add | Sub => 9 | Mul | Div | Mod => 10
   end.
-Definition L := 9.
+Definition L := 10.
 
-(* primary_expression_parser.cpp: after ident <, skip to the matching > counting only < and >,
-   over the rest of the FILE; a generic call iff the next token is ( *)
+(* primary_expression_parser.cpp: after ident <, skip to the matching > counting only < and >;
+   since fix 9bd33cd the scan stops at a token that cannot occur in a type-argument list
+   ( ; ( ) { } = + - && || ); a generic call iff the token after the matching > is ( *)
+Definition scan_stop (t : tok) : bool :=
+  match t with
+  | TSemi | TLP | TRP | TRBrace | TAsg None | TOp Add | TOp Sub | TOp And | TOp Or => true
+  | _ => false
+  end.
 Fixpoint generic_scan (depth : nat) (ts : list tok) : bool :=
   match ts with
   | [] => false
-  | TOp LtO :: r => generic_scan (S depth) r
-  | TOp GtO :: r =>
-      match depth with
-      | S (S d) => generic_scan (S d) r
-      | _ => match r with TLP :: _ => true | _ => false end
-      end
-  | _ :: r => generic_scan depth r
+  | t :: r =>
+      if scan_stop t then false
+      else match t with
+           | TOp LtO => generic_scan (S depth) r
+           | TOp GtO =>
+               match depth with
+               | S (S d) => generic_scan (S d) r
+               | _ => match r with TLP :: _ => true | _ => false end
+               end
+           | _ => generic_scan depth r
+           end
   end.
 (* number of tokens that look-ahead reads *)
 Fixpoint generic_scan_cost (depth : nat) (ts : list tok) : nat :=
   match ts with
   | [] => 0
-  | TOp LtO :: r => S (generic_scan_cost (S depth) r)
-  | TOp GtO :: r =>
-      match depth with
-      | S (S d) => S (generic_scan_cost (S d) r)
-      | _ => 1
-      end
-  | _ :: r => S (generic_scan_cost depth r)
+  | t :: r =>
+      if scan_stop t then 1
+      else match t with
+           | TOp LtO => S (generic_scan_cost (S depth) r)
+           | TOp GtO =>
+               match depth with
+               | S (S d) => S (generic_scan_cost (S d) r)
+               | _ => 1
+               end
+           | _ => S (generic_scan_cost depth r)
+           end
   end.
 
 (* tokens read by all look-aheads that parsePrimary starts on a token list: one scan per
@@ -125,38 +140,6 @@ Fixpoint targs_list (fuel : nat) (n : nat) (ts : list tok) : option (nat * list 
           | _ => None
           end
       end
-  end.
-
-(* type_utility_parser.cpp parseType entered at an identifier that names no type *)
-Fixpoint ty_dims (acc : list tok) (ts : list tok) : option (list tok * list tok) :=
-  match ts with
-  | TLB :: TNum n :: TRB :: r => ty_dims (acc ++ [TLB; TNum n; TRB]) r
-  | TLB :: TId x :: TRB :: r => ty_dims (acc ++ [TLB; TId x; TRB]) r
-  | TLB :: TRB :: r => ty_dims (acc ++ [TLB; TRB]) r
-  | TLB :: _ => None
-  | _ => Some (acc, ts)
-  end.
-Definition ty_refs (acc : list tok) (ts : list tok) : option (list tok * list tok) :=
-  match ts with
-  | TOp And :: r => ty_dims (acc ++ [TOp And]) r
-  | TOp BAnd :: TOp BAnd :: r => ty_dims (acc ++ [TOp And]) r
-  | TOp BAnd :: r => ty_dims (acc ++ [TOp BAnd]) r
-  | _ => ty_dims acc ts
-  end.
-Fixpoint ty_stars (acc : list tok) (ts : list tok) : option (list tok * list tok) :=
-  match ts with
-  | TOp Mul :: r => ty_stars (acc ++ [TOp Mul]) r
-  | _ => ty_refs acc ts
-  end.
-(* ( was consumed: a cast iff an identifier follows, parseType succeeds and ) follows *)
-Definition cast_type (ts : list tok) : option (list tok * list tok) :=
-  match ts with
-  | TId x :: r =>
-      match ty_stars [TId x] r with
-      | Some (ty, TRP :: r') => Some (ty, r')
-      | _ => None
-      end
-  | _ => None
   end.
 
 Definition closer (ts : list tok) : bool :=
@@ -302,16 +285,14 @@ with p_primary (f : nat) (ts : list tok) {struct f} : res (expr * list tok) :=
             else Ok (Call x args, r2))
       | TId x :: r => Ok (Var x, r)
       | TLP :: r =>
-          match cast_type r with
-          | Some (ty, r') =>
-              bind (p_unary f r') (fun ar => let (a, r2) := ar in Ok (Cast ty a, r2))
-          | None =>
-              bind (p_assign f r) (fun er =>
-                match er with
-                | (e, TRP :: r') => Ok (e, r')
-                | _ => Err
-                end)
-          end
+          (* since fix 34a2124 "( identifier" is tried as a cast only when the identifier names a
+             type (typedef / struct / enum / union / interface / type parameter); the identifiers
+             of this model are plain variables, so this is always a parenthesised expression *)
+          bind (p_assign f r) (fun er =>
+            match er with
+            | (e, TRP :: r') => Ok (e, r')
+            | _ => Err
+            end)
       | _ => Err
       end
   end
@@ -335,8 +316,8 @@ with p_args (f : nat) (ts : list tok) {struct f} : res (list expr * list tok) :=
       end
   end.
 
-(* recursion depth that is always enough: (L+5) frames per token (ExprTotal.parse_expr_total) *)
-Definition K := 14.
+(* recursion depth that is always enough: K = L+5 frames per token (ExprTotal.parse_total_l) *)
+Definition K := 15.
 Definition need (n : nat) : nat := K * (n + 1).
 Definition parse (ts : list tok) : res (expr * list tok) := p_assign (need (List.length ts)) ts.
 
